@@ -2,6 +2,8 @@ import PlzVerif.Lemmas.Build
 import PlzVerif.Lemmas.BuildNoop
 import PlzVerif.Model.BuildFacts
 import PlzVerif.Model.BuildE2E
+import PlzVerif.Lemmas.BuildOn
+import PlzVerif.Lemmas.BuildE2EFiles
 /-!
 C01  Incremental builds produce exactly what a clean build produces.
 
@@ -12,7 +14,10 @@ list — under the two injectivity hypotheses on the hash pre-images, which are 
 inside directories and permission bits (`C01_witness`, `C01_witness_mode_not_hashed`), the rule pre-image is
 concatenated unframed (`C01_witness_rule_preimage_not_injective`, C08) — so the theorem is named `_if_injective`: it
 says exactly which two repairs make the property hold, and it is instantiable for any injective pair of
-pre-images.  The witnesses are kernel-checked and the corresponding histories are replayed on the real binary
+pre-images.  `C01_main_on` is the same statement with injectivity restricted to the values that occur in the
+history, and `C01_e2e_files` instantiates it for the pre-images AS CODED on a class of repositories where they are
+injective (plain-file outputs, prefix-code names) — no hypothesis about the pre-images is left there.
+The witnesses are kernel-checked and the corresponding histories are replayed on the real binary
 (corpus/C01/known-*.ops, known findings).
 -/
 namespace PlzVerif.Props.C01
@@ -123,6 +128,93 @@ theorem C01_witness_rule_preimage_not_injective : ¬ Function.Injective PlzVerif
   intro h
   have := @h ⟨"ab", .cat, [], "o"⟩ ⟨"a", .cat, ["b"], "o"⟩ (by simp [PlzVerif.BuildE2E.ruleSer, String.join])
   simp at this
+
+/-! ### The instantiable form: injectivity restricted to the values that occur in the history -/
+
+/-- `C01_main_if_injective` with injectivity required only ON DOMAINS: `DA` contains the attribute records of every
+    target of every repository state of the history (and of the final one), `DC` their source trees and is closed
+    under the actions.  The proof never compares anything else (Lemmas/BuildOn.lean). -/
+theorem C01_main_on (mv : C → C → C) (DA : A → Prop) (DC : C → Prop)
+    (hmv : MvOKOn mv pathSer DC) (hR : InjROn ruleSer DA) (hP : InjPOn pathSer DC) (hE : ExecClosed exec DA DC)
+    (history : List (HOp K A F N C)) (hh : HistOn DA DC history)
+    (r : Repo K A F N C) (hr : RepoOn DA DC r) (sel : K → Bool) (hwf : WFList sel [] r.targets) :
+    ∀ k ∈ selKeys sel r.targets, ∃ c st,
+      (build generatedFacts mv exec ruleSer pathSer r sel
+        (runHist generatedFacts mv exec ruleSer pathSer history (fun _ => none))).1 k = some (c, st) ∧
+      (clean exec r sel).lookup k = some c := by
+  have hinv := runHist_inv_on generatedFacts mv exec ruleSer pathSer DA DC hmv hP hE history _ hh
+    (invOn_empty exec ruleSer pathSer DA DC)
+  have h := buildList_spec_on generatedFacts mv exec ruleSer pathSer DA DC hmv facts_cmp hR hP hE r sel r.targets []
+    _ [] hr rfl hinv (by intro k hk; simp at hk) hwf
+  intro k hk
+  exact h.2.2 k (by simpa using hk)
+
+/-- **The theorem that applies to the code as it is** (end-to-end instance: path pre-image without names and modes,
+    rule pre-image concatenated unframed, the coded move of outputs `mvE2E`), with NO unproved hypothesis about the
+    pre-images: for repositories whose outputs are plain files (commands cat / catfirst / catn / const / text and
+    filegroups) and whose labels, sources and output names are words of a prefix code (end in a terminator character
+    that occurs nowhere else in them, no `\x01`), after ANY history of such repository states and removals the
+    incremental build gives every requested target exactly its clean-build output. -/
+theorem C01_e2e_files (term : Char → Bool)
+    (history : List (HOp String PlzVerif.BuildE2E.Attrs String String PlzVerif.BuildE2E.Tree))
+    (hh : HistOn (PlzVerif.BuildE2E.DAttrs term) PlzVerif.BuildE2E.IsFile history)
+    (r : PlzVerif.BuildE2E.Repo') (hr : RepoOn (PlzVerif.BuildE2E.DAttrs term) PlzVerif.BuildE2E.IsFile r)
+    (sel : String → Bool) (hwf : WFList sel [] r.targets) :
+    ∀ k ∈ selKeys sel r.targets, ∃ c st,
+      (PlzVerif.BuildE2E.buildE2E r sel
+        (runHist generatedFacts PlzVerif.BuildE2E.mvE2E PlzVerif.BuildE2E.exec PlzVerif.BuildE2E.ruleSer
+          PlzVerif.BuildE2E.pathSer history (fun _ => none))).1 k = some (c, st) ∧
+      (PlzVerif.BuildE2E.cleanE2E r sel).lookup k = some c :=
+  C01_main_on PlzVerif.BuildE2E.exec PlzVerif.BuildE2E.ruleSer PlzVerif.BuildE2E.pathSer PlzVerif.BuildE2E.mvE2E
+    (PlzVerif.BuildE2E.DAttrs term) PlzVerif.BuildE2E.IsFile PlzVerif.BuildE2E.mvE2E_ok_files
+    (PlzVerif.BuildE2E.ruleSer_inj_on term) PlzVerif.BuildE2E.pathSer_inj_files (PlzVerif.BuildE2E.exec_closed_files term)
+    history hh r hr sel hwf
+
+namespace E2EExample
+open PlzVerif.BuildE2E
+/-- terminator: a decimal digit -/
+def digit (c : Char) : Bool := c.isDigit
+/-- `//p:t1 = cat(f1)`, `//p:t2 = catn(//p:t1, f2)`; names end in their only digit. -/
+def t1 : Target' := ⟨"//p:t1", ⟨"//p:t1", .cat, ["f1"], "o1"⟩, ["f1"], []⟩
+def t2 : Target' := ⟨"//p:t2", ⟨"//p:t2", .catn, ["//p:t1", "f2"], "o2"⟩, ["f2"], ["//p:t1"]⟩
+def repoA : Repo' := { files := fun f => .file (f ++ "-v1\n"), fname := id, outName := id, targets := [t1, t2] }
+/-- the same with every source edited and `t1` redefined as a constant -/
+def repoB : Repo' := { files := fun f => .file (f ++ "-v2\n"), fname := id, outName := id,
+                       targets := [⟨"//p:t1", ⟨"//p:t1", .const "k", [], "o1"⟩, [], []⟩, t2] }
+
+theorem goodWord_of (s : String) (body : List Char) (t : Char) (h : s.toList = body ++ [t])
+    (ht : digit t = true) (hb : ∀ c ∈ body, digit c = false) (hs : sep ∉ s.toList) : GoodWord digit s :=
+  ⟨⟨body, t, h, ht, hb⟩, hs⟩
+
+theorem repoA_on : RepoOn (DAttrs digit) IsFile repoA := by
+  intro t ht
+  simp [repoA] at ht
+  rcases ht with rfl | rfl
+  · refine ⟨⟨rfl, goodWord_of _ "//p:t".toList '1' (by decide) (by decide) (by decide) (by decide), ?_,
+      goodWord_of _ "o".toList '1' (by decide) (by decide) (by decide) (by decide)⟩, fun f _ => trivial⟩
+    intro s hs; simp [t1] at hs; subst hs
+    exact goodWord_of _ "f".toList '1' (by decide) (by decide) (by decide) (by decide)
+  · refine ⟨⟨rfl, goodWord_of _ "//p:t".toList '2' (by decide) (by decide) (by decide) (by decide), ?_,
+      goodWord_of _ "o".toList '2' (by decide) (by decide) (by decide) (by decide)⟩, fun f _ => trivial⟩
+    intro s hs; simp [t2] at hs
+    rcases hs with rfl | rfl
+    · exact goodWord_of _ "//p:t".toList '1' (by decide) (by decide) (by decide) (by decide)
+    · exact goodWord_of _ "f".toList '2' (by decide) (by decide) (by decide) (by decide)
+
+theorem repoB_on : RepoOn (DAttrs digit) IsFile repoB := by
+  intro t ht
+  simp [repoB] at ht
+  rcases ht with rfl | rfl
+  · exact ⟨⟨rfl, goodWord_of _ "//p:t".toList '1' (by decide) (by decide) (by decide) (by decide), by simp,
+      goodWord_of _ "o".toList '1' (by decide) (by decide) (by decide) (by decide)⟩, fun f hf => by simp at hf⟩
+  · exact repoA_on t2 (by simp [repoA])
+
+/-- non-vacuity of `C01_e2e_files`: a two-target repository in the class, a history that builds it, removes an
+    output and builds an edited state; all hypotheses hold. -/
+example : HistOn (DAttrs digit) IsFile [.build repoA (fun _ => true), .remove (fun k => k != "//p:t2")] ∧
+    RepoOn (DAttrs digit) IsFile repoB ∧ WFList (fun _ => true) [] repoB.targets :=
+  ⟨⟨repoA_on, trivial⟩, repoB_on, by simp [WFList, repoB, t2]⟩
+end E2EExample
 
 -- non-vacuity of C01_main_if_injective's hypotheses: a well-formed two-target list with injective pre-images
 example : WFList (fun _ => true) [] ([⟨0, 0, [0], []⟩, ⟨1, 1, [], [0]⟩] : List (Target Nat Nat Nat)) := by
